@@ -821,6 +821,297 @@ ans.push_str(&self.tried); self.tried.clear();
 	}
 }
 
+/// c03chain — restart reconstruction of on-chain failed HTLCs (`ChannelMonitor::get_onchain_failed_outbound_htlcs`, read by
+/// `ChannelManager::read` for closed channels). Real nodes 0 (sender) - 1 (recipient), one legacy channel. Payment 1 is fully
+/// committed and held by the recipient; payment 2 (optional) is caught in the commitment dance (`update_add_htlc` +
+/// `commitment_signed` not delivered / delivered but the answer lost). The channel is closed on chain by either side with its
+/// latest commitment — which, seen from the sender, is the counterparty's PREVIOUS unrevoked commitment, the counterparty's
+/// current one, or the holder's current one —, confirmed to ANTI_REORG_DELAY - 1 and then ANTI_REORG_DELAY, the sender restarts
+/// at any of the check points, then the recipient claims payment 1's output with the preimage / nobody claims / the sender
+/// times it out. At every check point the monitor's view (`verif_onchain_failed_view`) is one `ocf` case: the real result
+/// against Model/OnchainFailed.lean; the oracles state the property on what the real node did.
+mod chain {
+	use std::collections::BTreeMap;
+	use ldk_verif_harness::common::*;
+	use ldk_verif_harness::sim::{self, Net};
+	use bitcoin::Transaction;
+	use lightning::chain::channelmonitor::ANTI_REORG_DELAY;
+	use lightning::events::Event;
+	use lightning::ln::channelmanager::{PaymentId, RecentPaymentDetails};
+	use lightning::ln::functional_test_utils::{connect_blocks, mine_transaction, test_legacy_channel_config};
+	use lightning::ln::types::ChannelId;
+	use lightning::ln::verif_hooks as vh;
+
+	#[derive(Clone, Copy, Debug)]
+	pub struct World { pub closer_sender: bool, pub dance: u8, pub dust: bool, pub res: u8, pub restarts: u8 }
+
+	#[derive(Default)]
+	struct Tally { sent: u32, failed: u32, path_failed: u32 }
+
+	struct Sc<'a> { net: Net, rec: &'a mut Rec, cid: ChannelId, tag: String, txids: BTreeMap<String, u64>, srcs: BTreeMap<String, u64>, log: Vec<String>,
+		ids: Vec<PaymentId>, tallies: Vec<Tally>, ev_seen: usize, restarted: u32, listed_now: Vec<usize> }
+
+	fn intern(m: &mut BTreeMap<String, u64>, k: &str) -> String { if k == "-" { return "-".into(); } let n = m.len() as u64 + 1; m.entry(k.to_string()).or_insert(n).to_string() }
+
+	impl<'a> Sc<'a> {
+		fn blocks(&mut self, f: impl Fn(&sim::N)) { for i in 0..self.net.nodes.len() { f(&self.net.nodes[i]); } self.net.pump_all(); }
+		/// the sender's new events, counted per payment
+		fn drain(&mut self) -> Vec<String> {
+			self.net.process_events(0);
+			let new: Vec<Event> = self.net.events[0][self.ev_seen..].to_vec();
+			self.ev_seen = self.net.events[0].len();
+			let mut out = vec![];
+			for e in new.iter() {
+				match e {
+					Event::PaymentSent { payment_id, payment_preimage, payment_hash, .. } => { if let Some(p) = self.ids.iter().position(|x| Some(*x) == *payment_id) {
+						use bitcoin::hashes::{sha256, Hash};
+						if sha256::Hash::hash(&payment_preimage.0).to_byte_array() != payment_hash.0 { self.rec.oracle_fail(format!("PaymentSent with a preimage that does not hash to the payment hash :: {}", self.tag)); }
+						self.tallies[p].sent += 1; out.push(format!("sent:{}", p + 1)); } },
+					Event::PaymentFailed { payment_id, .. } => { if let Some(p) = self.ids.iter().position(|x| x == payment_id) { self.tallies[p].failed += 1; out.push(format!("failed:{}", p + 1)); } },
+					Event::PaymentPathFailed { payment_id, .. } => { if let Some(p) = self.ids.iter().position(|x| Some(*x) == *payment_id) { self.tallies[p].path_failed += 1; out.push(format!("pathfail:{}", p + 1)); } },
+					_ => {},
+				}
+			}
+			if !out.is_empty() { self.log.push(format!("events {}", out.join(" "))); }
+			out
+		}
+		fn pending(&self, p: usize) -> bool {
+			self.net.nodes[0].node.list_recent_payments().iter().any(|r| matches!(r, RecentPaymentDetails::Pending { payment_id, .. } if *payment_id == self.ids[p]))
+		}
+		/// one `ocf` case from the monitor as it is now; returns the numbers of the payments the real function reports failed
+		fn ocf(&mut self, stage: &str) -> Vec<usize> {
+			let mon = match self.net.nodes[0].chain_monitor.chain_monitor.get_monitor(self.cid) { Ok(m) => m, Err(_) => return vec![] };
+			let view = mon.verif_onchain_failed_view();
+			let real = vh::monitor_onchain_failed_outbound_htlc_keys(&mon);
+			let listed = vh::monitor_outbound_htlcs_dump(&mon);
+			drop(mon);
+			let (mut best, mut fsc, mut cur, mut prev, mut hct, mut hpt) = (String::new(), "-".to_string(), "-".to_string(), "-".to_string(), "0".to_string(), "-".to_string());
+			let (mut aw, mut roc, mut rtu): (Vec<String>, Vec<String>, Vec<String>) = (vec![], vec![], vec![]);
+			let mut lists: BTreeMap<&str, String> = BTreeMap::new();
+			let mut alt = false;
+			for l in view.iter() {
+				let w: Vec<&str> = l.split(' ').filter(|x| !x.is_empty()).collect();
+				let htlcs = |sc: &mut BTreeMap<String, u64>, ws: &[&str]| -> String {
+					let v: Vec<String> = ws.iter().map(|h| { let (s, i) = h.rsplit_once('@').unwrap(); format!("{}@{}", if s == "-" { "x".to_string() } else { intern(sc, s) }, if i == "-" { "x" } else { i }) }).collect();
+					if v.is_empty() { "-".into() } else { v.join(",") }
+				};
+				match w[0] {
+					"best" => best = w[1].to_string(),
+					"fsc" => fsc = intern(&mut self.txids, w[1]),
+					"aw" => aw.push(format!("{}:{}:{}", intern(&mut self.txids, w[1]), w[2], w[3])),
+					"alt" => alt = w[1] == "1",
+					"curcp" => cur = intern(&mut self.txids, w[1]),
+					"prevcp" => prev = intern(&mut self.txids, w[1]),
+					"cpc" => { let t = htlcs(&mut self.srcs, &w[1..]); lists.insert("cpc", t); },
+					"cpp" => { let t = htlcs(&mut self.srcs, &w[1..]); lists.insert("cpp", t); },
+					"hcur" => { hct = intern(&mut self.txids, w[1]); let t = htlcs(&mut self.srcs, &w[2..]); lists.insert("hcur", t); },
+					"hprev" => { hpt = intern(&mut self.txids, w[1]); let t = if w.len() > 2 { htlcs(&mut self.srcs, &w[2..]) } else { "-".into() }; lists.insert("hprev", t); },
+					"rtu" => { for k in &w[1..] { rtu.push(intern(&mut self.srcs, k)); } },
+					"roc" => roc.push(format!("{}:{}", if w[1] == "-" { "x" } else { w[1] }, w[2])),
+					_ => {},
+				}
+			}
+			if alt { self.rec.discarded += 1; return vec![]; }
+			let j = |v: &Vec<String>| if v.is_empty() { "-".to_string() } else { v.join(",") };
+			let op = format!("ocf {} {} {} {} {} {} {} {} {} {} {} {} {}", best, fsc, j(&aw), cur, prev, lists.get("cpc").cloned().unwrap_or("-".into()), lists.get("cpp").cloned().unwrap_or("-".into()),
+				hct, lists.get("hcur").cloned().unwrap_or("-".into()), hpt, lists.get("hprev").cloned().unwrap_or("-".into()), j(&rtu), j(&roc));
+			let mut nums: Vec<u64> = real.iter().map(|k| intern(&mut self.srcs, k).parse().unwrap()).collect();
+			nums.sort(); nums.dedup();
+			let ans = format!("failed {}", if nums.is_empty() { "-".to_string() } else { nums.iter().map(|n| n.to_string()).collect::<Vec<_>>().join(",") });
+			// which arm of the recognition chain this view takes (class counter = the branch was really reached)
+			let conf = if fsc != "-" { fsc.clone() } else { aw.iter().filter_map(|a| { let x: Vec<&str> = a.split(':').collect(); let b: u32 = best.parse().unwrap_or(0); let h: u32 = x[1].parse().unwrap_or(0);
+				if x[2] == "1" && h + ANTI_REORG_DELAY - 1 <= b { Some(x[0].to_string()) } else { None } }).next().unwrap_or("-".into()) };
+			let arm = if conf == "-" { "unconfirmed" } else if conf == cur { "counterparty-current" } else if conf == prev { "counterparty-previous" } else if conf == hct { "holder-current" } else if conf == hpt { "holder-previous" } else { "other" };
+			self.log.push(format!("[{}] {} => {}", stage, op, ans));
+			self.rec.case(&op, &ans, &format!("ocf:{}:{}", arm, if nums.is_empty() { "none" } else { "some" }), arm != "unconfirmed");
+			// get_all_current_outbound_htlcs on the same view
+			let mut lnums: Vec<u64> = listed.iter().map(|l| intern(&mut self.srcs, l.split(' ').next().unwrap_or("")).parse().unwrap()).collect();
+			lnums.sort(); lnums.dedup();
+			let op2 = format!("acur {} {} {} {} {}", cur, prev, lists.get("cpc").cloned().unwrap_or("-".into()), lists.get("cpp").cloned().unwrap_or("-".into()), j(&rtu));
+			let ans2 = format!("listed {}", if lnums.is_empty() { "-".to_string() } else { lnums.iter().map(|n| n.to_string()).collect::<Vec<_>>().join(",") });
+			self.rec.case(&op2, &ans2, &format!("acur:{}", lnums.len().min(3)), !lnums.is_empty());
+			self.listed_now = listed.iter().filter_map(|k| self.ids.iter().position(|id| k.starts_with(&format!("route:{}:", id)))).collect();
+			real.iter().filter_map(|k| self.ids.iter().position(|id| k.starts_with(&format!("route:{}:", id)))).collect()
+		}
+		fn restart(&mut self) -> Result<(), String> {
+			let (mgr, mons) = self.net.snapshot(0);
+			self.net.restart_from(0, &mgr, &mons).map_err(|e| format!("restart failed: {}", e))?;
+			self.restarted += 1; self.log.push("RESTART sender (current manager + monitor)".into());
+			Ok(())
+		}
+	}
+
+	fn spending(node: &sim::N, txid: bitcoin::Txid, vout: Option<u32>) -> Vec<Transaction> {
+		let b = node.tx_broadcaster.txn_broadcasted.lock().unwrap();
+		let mut out: Vec<Transaction> = vec![];
+		// newest first; a transaction that spends an outpoint already spent by a chosen one (a fee bump of the same claim) is left out
+		for tx in b.iter().rev() {
+			if tx.input.iter().any(|i| i.previous_output.txid == txid && vout.map(|v| v == i.previous_output.vout).unwrap_or(true))
+				&& !out.iter().any(|o| o.input.iter().any(|oi| tx.input.iter().any(|ti| ti.previous_output == oi.previous_output))) { out.push(tx.clone()); }
+		}
+		out
+	}
+
+	pub fn scenario(w: World, rec: &mut Rec, seed: u64) -> Result<(), String> {
+		let mut net = Net::new(2, vec![Some(test_legacy_channel_config()), Some(test_legacy_channel_config())]);
+		let c = net.open(0, 1, 1_000_000, 200_000_000);
+		let cid = net.chans[c].2;
+		let mut sc = Sc { net, rec, cid, tag: format!("c03chain {:?} seed={}", w, seed), txids: BTreeMap::new(), srcs: BTreeMap::new(), log: vec![], ids: vec![], tallies: vec![], ev_seen: 0, restarted: 0, listed_now: vec![] };
+		let r = guarded(std::panic::AssertUnwindSafe(|| world(w, &mut sc, c, seed)));
+		// the test nodes assert on drop that nothing is left unhandled: not our concern here
+		let Sc { net, rec, tag, log, .. } = sc; std::mem::forget(net);
+		match r { Ok(x) => x, Err(p) => { rec.oracle_fail(format!("panic while driving the real nodes: {} :: {} :: {}", p.chars().take(300).collect::<String>(), tag, log.join(" | "))); Ok(()) } }
+	}
+
+	fn world(w: World, sc: &mut Sc, c: usize, seed: u64) -> Result<(), String> {
+		let mut rng = Rng::new(seed);
+		let cid = sc.cid;
+		// distinct amounts (the HTLC outputs are recognised by value): payment 1 dust or not, payment 2 always non-dust
+		let amt1: u64 = if w.dust { 100_000 + rng.below(150) * 1000 } else { 8_000_000 + rng.below(4000) * 1000 };
+		let amt2: u64 = 4_000_000 + rng.below(3000) * 1000;
+		let p1 = sc.net.send(&[0, 1], &[c], amt1, 60)?; sc.net.settle(10);
+		if !sc.net.claimable[1].iter().any(|x| x.0 == sc.net.pays[p1].hash) { return Err("payment 1 did not reach the recipient".into()); }
+		sc.ids.push(sc.net.pays[p1].id);
+		if w.dance > 0 {
+			let p2 = sc.net.send(&[0, 1], &[c], amt2, 60)?; sc.ids.push(sc.net.pays[p2].id);
+			if w.dance == 2 { while sc.net.queued(0, 1) > 0 { sc.net.deliver(0, 1); } }
+		}
+		sc.net.q.remove(&(0, 1)); sc.net.q.remove(&(1, 0));
+		sc.tag = format!("c03chain {:?} amt1={} amt2={} seed={}", w, amt1, amt2, seed);
+		let n_ids = sc.ids.len();
+		sc.tallies = (0..n_ids).map(|_| Tally::default()).collect();
+		sc.ev_seen = sc.net.events[0].len();
+		sc.ocf("open");
+		// ---- the close: the closer's latest holder commitment is mined everywhere
+		let closer = if w.closer_sender { 0 } else { 1 };
+		let closing_tx = sc.net.nodes[closer].chain_monitor.chain_monitor.get_monitor(cid).map_err(|_| "no monitor")?.unsafe_get_latest_holder_commitment_txn(&sc.net.nodes[closer].logger)[0].clone();
+		let peer_id = sc.net.ids[1 - closer];
+		sc.net.nodes[closer].node.force_close_broadcasting_latest_txn(&cid, &peer_id, "closed by the application".to_string()).map_err(|e| format!("{:?}", e))?;
+		sc.net.pump(closer); sc.net.process_events(closer);
+		sc.net.disconnect(0, 1);
+		let ctxid = closing_tx.compute_txid();
+		// ground truth from the transaction itself: does payment k have an output in it?
+		let has_output = |amt: u64| closing_tx.output.iter().any(|o| o.value.to_sat() == amt / 1000);
+		let amts = [amt1, amt2];
+		let in_tx: Vec<bool> = (0..n_ids).map(|k| has_output(amts[k])).collect();
+		sc.log.push(format!("close by node {} with {} outputs; HTLC outputs present: {:?}", closer, closing_tx.output.len(), in_tx));
+		if in_tx[0] == w.dust { return Err(format!("payment 1 dust={} but output present={}", w.dust, in_tx[0])); }
+		sc.blocks(|n| { mine_transaction(n, &closing_tx); });
+		sc.blocks(|n| { connect_blocks(n, ANTI_REORG_DELAY - 2); });
+		// ---- ANTI_REORG_DELAY - 1 confirmations: nothing may be reported, no terminal event
+		let mut timed_out = vec![false; n_ids];
+		let check = |sc: &mut Sc, stage: &str, buried: bool, timed_out: &Vec<bool>| {
+			// the view before the sender's pending events are handled (what a restart at this instant reads), then after
+			let mut rep = sc.ocf(&format!("{},events-pending", stage));
+			let ev = sc.drain();
+			for k in sc.ocf(stage) { if !rep.contains(&k) { rep.push(k); } }
+			if !buried && !rep.is_empty() { sc.rec.oracle_fail(format!("get_onchain_failed_outbound_htlcs reports payments {:?} failed although the commitment transaction has fewer than ANTI_REORG_DELAY confirmations [{}] :: {} :: {}", rep.iter().map(|k| k + 1).collect::<Vec<usize>>(), stage, sc.tag, sc.log.join(" | "))); }
+			for k in 0..sc.ids.len() {
+				let live = in_tx[k] && !timed_out[k];
+				if live && rep.contains(&k) { sc.rec.oracle_fail(format!("restart reconstruction (get_onchain_failed_outbound_htlcs) reports payment {}'s HTLC FAILED although it has a live non-dust output in the confirmed commitment transaction {} [{}] :: {} :: {}", k + 1, ctxid, stage, sc.tag, sc.log.join(" | "))); }
+				if live && sc.tallies[k].sent == 0 && (sc.tallies[k].failed > 0 || sc.tallies[k].path_failed > 0) { sc.rec.oracle_fail(format!("payment {} reported failed (PaymentPathFailed x{}, PaymentFailed x{}) while its HTLC output in the confirmed commitment transaction is still live [{}] :: {} :: {}", k + 1, sc.tallies[k].path_failed, sc.tallies[k].failed, stage, sc.tag, sc.log.join(" | "))); }
+				if live && sc.tallies[k].sent == 0 && !sc.listed_now.contains(&k) { sc.rec.oracle_fail(format!("get_all_current_outbound_htlcs does not list payment {} although its HTLC output is live and no PaymentSent was seen (a restart would forget it) [{}] :: {} :: {}", k + 1, stage, sc.tag, sc.log.join(" | "))); }
+				if live && sc.tallies[k].sent == 0 && !sc.pending(k) { sc.rec.oracle_fail(format!("payment {} is no longer listed Pending by list_recent_payments although its HTLC output is live (a retry would pay twice) [{}] :: {} :: {}", k + 1, stage, sc.tag, sc.log.join(" | "))); }
+				if !buried && (sc.tallies[k].failed > 0 || sc.tallies[k].sent > 0) { sc.rec.oracle_fail(format!("terminal event for payment {} before the close reached ANTI_REORG_DELAY confirmations [{}] :: {} :: {}", k + 1, stage, sc.tag, sc.log.join(" | "))); }
+			}
+			let _ = ev;
+		};
+		check(sc, "depth=ARD-1", false, &timed_out);
+		if w.restarts & 1 != 0 { sc.restart()?; check(sc, "depth=ARD-1,restarted", false, &timed_out); }
+		// ---- ANTI_REORG_DELAY confirmations
+		sc.blocks(|n| { connect_blocks(n, 1); });
+		// a restart at the very block that buries the close, BEFORE the sender's events were handled: a terminal event may then
+		// be repeated once (it had not been handled and persisted), never contradicted
+		let early = w.restarts & 16 != 0;
+		if early { sc.restart()?; }
+		check(sc, "depth=ARD", true, &timed_out);
+		if w.restarts & 2 != 0 { sc.restart()?; check(sc, "depth=ARD,restarted", true, &timed_out); }
+		// ---- resolution of payment 1's output
+		let mut claimed = false;
+		if w.res == 0 && in_tx[0] {
+			let pre = sc.net.pays[p1].preimage;
+			sc.net.nodes[1].node.claim_funds(pre); sc.net.pump(1); sc.net.process_events(1);
+			let txs: Vec<Transaction> = spending(&sc.net.nodes[1], ctxid, None).into_iter().filter(|t| t.compute_txid() != ctxid).collect();
+			if txs.is_empty() { sc.rec.discarded += 1; sc.log.push("recipient broadcast no claim".into()); }
+			else {
+				for tx in txs.iter() { sc.blocks(|n| { mine_transaction(n, tx); }); }
+				claimed = true; sc.log.push(format!("recipient's preimage claim mined ({} tx)", txs.len()));
+				// bit 32: the sender does not handle its events until the claim is buried (PaymentSent unhandled while
+				// htlcs_resolved_on_chain gains the entry with the preimage)
+				if w.restarts & 32 == 0 { check(sc, "claim-mined", true, &timed_out); }
+				if w.restarts & 4 != 0 { sc.restart()?; if w.restarts & 32 == 0 { check(sc, "claim-mined,restarted", true, &timed_out); } }
+				sc.blocks(|n| { connect_blocks(n, ANTI_REORG_DELAY - 1); });
+				check(sc, "claim-buried", true, &timed_out);
+			}
+		} else if w.res == 2 && in_tx[0] {
+			// nobody claims: past the HTLC's expiry the sender claims the output back
+			sc.blocks(|n| { connect_blocks(n, 90); });
+			check(sc, "expired", true, &timed_out);
+			let txs: Vec<Transaction> = spending(&sc.net.nodes[0], ctxid, None).into_iter().filter(|t| t.compute_txid() != ctxid).collect();
+			if txs.is_empty() { sc.rec.discarded += 1; sc.log.push("sender broadcast no timeout claim".into()); }
+			else {
+				for tx in txs.iter() { sc.blocks(|n| { mine_transaction(n, tx); }); }
+				for k in 0..n_ids { timed_out[k] = in_tx[k]; }
+				sc.log.push(format!("sender's timeout claims mined ({} tx)", txs.len()));
+				if w.restarts & 4 != 0 { sc.restart()?; }
+				sc.blocks(|n| { connect_blocks(n, ANTI_REORG_DELAY - 1); });
+				check(sc, "timeout-buried", true, &timed_out);
+			}
+		}
+		if w.restarts & 8 != 0 { sc.restart()?; check(sc, "end,restarted", true, &timed_out); }
+		sc.blocks(|n| { connect_blocks(n, 2); });
+		check(sc, "end", true, &timed_out);
+		// ---- exactly one truthful terminal outcome per payment
+		for k in 0..n_ids {
+			let t = &sc.tallies[k];
+			let (want_sent, want_failed): (Option<u32>, Option<u32>) =
+				if k == 0 && claimed { (Some(1), Some(0)) }
+				else if !in_tx[k] || timed_out[k] { (Some(0), Some(1)) }       // no output (dust / never included) or timed out on chain
+				else { (Some(0), Some(0)) };                                    // output still live: pending
+			let cnt_ok = |want: u32, got: u32| if (early || (w.restarts & 36 == 36)) && want == 1 { got == 1 || got == 2 } else { got == want };
+			let ok = want_sent.map(|n| cnt_ok(n, t.sent)).unwrap_or(true) && want_failed.map(|n| cnt_ok(n, t.failed)).unwrap_or(true) && !(t.sent > 0 && t.path_failed > 0);
+			if !ok { sc.rec.oracle_fail(format!("payment {}: {} PaymentSent, {} PaymentFailed, {} PaymentPathFailed but the chain says {} (expected {} PaymentSent, {} PaymentFailed; {} restarts) :: {} :: {}", k + 1, t.sent, t.failed, t.path_failed,
+				if k == 0 && claimed { "the recipient claimed its output with the preimage" } else if !in_tx[k] { "it has no output in the confirmed commitment transaction" } else if timed_out[k] { "the sender claimed its output back after the timeout" } else { "its output is still unspent" },
+				want_sent.unwrap_or(0), want_failed.unwrap_or(0), sc.restarted, sc.tag, sc.log.join(" | "))); }
+			let class = format!("outcome:{}:{}", if k == 0 && claimed { "claimed" } else if !in_tx[k] { "no-output" } else if timed_out[k] { "timed-out" } else { "live" }, if sc.restarted > 0 { "restarted" } else { "no-restart" });
+			*sc.rec.classes.entry(class).or_insert(0) += 1;
+		}
+		Ok(())
+	}
+
+	pub fn run(args: &Args) {
+		sim::silence_stdout();
+		let mut rec = Rec::new(&args.out, "c03chain");
+		let mut rng = Rng::new(args.seed ^ 0xC03C);
+		let n = if args.thorough { 3000 } else { 240 } * args.scale.max(1);
+		let mut errs = 0u64;
+		for k in 0..n {
+			// the first worlds are directed (previous counterparty commitment confirmed, restart once it is buried, then the claim)
+			let w = match k {
+				0 => World { closer_sender: false, dance: 1, dust: false, res: 0, restarts: 2 },
+				1 => World { closer_sender: false, dance: 1, dust: false, res: 2, restarts: 6 },
+				2 => World { closer_sender: false, dance: 2, dust: false, res: 0, restarts: 2 },
+				3 => World { closer_sender: true, dance: 1, dust: false, res: 0, restarts: 3 },
+				4 => World { closer_sender: false, dance: 0, dust: true, res: 1, restarts: 2 },
+				5 => World { closer_sender: false, dance: 1, dust: true, res: 1, restarts: 10 },
+				6 => World { closer_sender: false, dance: 1, dust: false, res: 0, restarts: 16 },
+				7 => World { closer_sender: true, dance: 2, dust: false, res: 2, restarts: 20 },
+				8 => World { closer_sender: false, dance: 1, dust: false, res: 0, restarts: 32 + 8 },
+				9 => World { closer_sender: true, dance: 0, dust: false, res: 0, restarts: 32 + 4 },
+				_ => World { closer_sender: rng.chance(1, 3), dance: rng.below(3) as u8, dust: rng.chance(1, 4), res: rng.below(3) as u8, restarts: rng.below(64) as u8 },
+			};
+			rec.directive("reset");
+			let seed = rng.next();
+			match scenario(w, &mut rec, seed) {
+				Ok(()) => {},
+				Err(e) => { errs += 1; rec.discarded += 1; rec.notes.insert(format!("discarded world {}", k), format!("{:?}: {}", w, e)); },
+			}
+		}
+		rec.notes.insert("rule".into(), format!("{} on-chain worlds (closer sender / recipient x payment 2 absent / add+commitment_signed undelivered / delivered and answer lost x payment 1 dust / non-dust x recipient claims with the preimage / nobody claims / sender times out x restarts of the sender at ARD-1, ARD, claim mined, end); {} could not be set up; every check point is one `ocf` case (real get_onchain_failed_outbound_htlcs vs Model/OnchainFailed.lean on the dumped monitor view)", n, errs));
+		rec.finish();
+	}
+}
+
 fn pid(n: u64) -> PaymentId { let mut b = [0u8; 32]; b[24..].copy_from_slice(&n.to_be_bytes()); PaymentId(b) }
 fn pid_num(hex32: &str) -> u64 { u64::from_str_radix(&hex32[48..], 16).unwrap_or(u64::MAX) }
 fn preimage_of(id: u64, gen: u64) -> PaymentPreimage { let mut b = [9u8; 32]; b[..8].copy_from_slice(&id.to_be_bytes()); b[8..16].copy_from_slice(&gen.to_be_bytes()); PaymentPreimage(b) }
@@ -1463,6 +1754,7 @@ fn main() {
 	match args.model.as_str() {
 		"c03pay" => run_pay(args),
 		"c03e2e" => e2e::run(args),
+		"c03chain" => chain::run(args),
 		m => { eprintln!("unknown model {}", m); std::process::exit(2); },
 	}
 }
